@@ -329,9 +329,22 @@ def run_case(case):
             applied = np.round(applied) + rng.uniform(0.35, 0.65, nsp) * rng.choice([-1, 1], nsp)      # fractional parts near one half
         applied -= np.median(applied)
         applied[np.argsort(np.abs(applied))[0]] = 0.0
+        majority = rng.random() < 0.35
+        if majority:
+            # most spikes of the cluster are the template itself, a minority arrives shifted: the unshifted majority is left where it is
+            applied = np.zeros(nsp)
+            kshift = max(1, int(round(nsp * float(rng.uniform(0.05, 0.3)))))
+            applied[rng.choice(nsp, kshift, replace=False)] = rng.uniform(0.4, 3.0, kshift) * rng.choice([-1, 1], kshift)
         wfs = np.stack([fshift(tmpl, float(s), axis=-1) for s in applied])
         try:
             out, sh = W.shift_waveform(wfs.copy())
+            if majority:
+                still = applied == 0
+                res.check(np.max(np.abs(sh[still])) <= 0.05, "shift_waveform:unshifted-majority-moved", f"cluster of {nsp} spikes, {int((~still).sum())} of them shifted by "
+                          f"{np.round(applied[~still], 2).tolist()}: the {int(still.sum())} unshifted spikes were given shifts up to {np.max(np.abs(sh[still])):.3f} samples",
+                          counter="majority_clusters")
+                res.check(np.max(np.abs(sh[~still] + applied[~still])) <= 0.06, "shift_waveform:shifts", f"cluster of {nsp} spikes: the shifted minority got "
+                          f"{np.round(sh[~still], 3).tolist()}, applied {np.round(applied[~still], 3).tolist()}")
             # docstring: the template (median) is shifted onto each spike and the *same* computed shift is applied
             med = np.nanmedian(wfs, axis=0)
             pk = np.argmax(np.max(np.abs(med), axis=1))
